@@ -1193,7 +1193,7 @@ const SIMK_ASSUMPTIONS: &[&str] = &[
 pub static C01: PropDef = PropDef {
     id: "C01",
     level: "exploration",
-    rule: "proptest generates (piped-stream subset, three pipe capacities from {4K,8K,16K,64K,1M}, pipe flavour, child script from 11 templates or a random op vector, input length around/far above the capacity, per-call schedule of child steps, read limits); the real Communicator code runs on the simulated kernel. Oracle: never a wait-for cycle (parent blocked with no timeout while the child is blocked or finished), never a call budget overrun (spinning), bounded number of calls after the child closed everything. Non-trivial = more than one pipe capacity moved in some direction, or the child produced output before consuming all input, or both output streams carried data; distinct = distinct generated cases among those.",
+    rule: "proptest generates (piped-stream subset, three pipe capacities from {4K,8K,16K,64K,1M}, pipe flavour, child script from 11 templates or a random op vector, input length around/far above the capacity, per-call schedule of child steps, read limits); the real Communicator code runs on the simulated kernel. Oracle: never a wait-for cycle (parent blocked with no timeout while the child is blocked or finished), never a call budget overrun (spinning), bounded number of calls after the child closed everything. Non-trivial = more than one pipe capacity moved in some direction, or the child produced output before consuming all input, or both output streams carried data; distinct = distinct generated cases among those. Further templates: a child that closes its outputs before it reads its input, a multiplexing child that keeps producing output until its input has arrived. An unlimited read() that returned Ok must have completed the exchange: the scripted child can then reach its end with the parent's pipe ends as they are (a wait before the Communicator is dropped must work). A separate termination-only real-process stage runs Popen::communicate/communicate_bytes, Communicator::read, Exec::capture and Pipeline::capture against real children whose scripts close any of their three streams at any point, under the wait-for-graph oracle.",
     assumptions: SIMK_ASSUMPTIONS,
     engines: "simk",
     workers: |_| 16,
@@ -1204,7 +1204,7 @@ pub static C01: PropDef = PropDef {
 pub static C02: PropDef = PropDef {
     id: "C02",
     level: "exploration",
-    rule: "as C01 plus short-read and short-write plans (each parent read() may be cut to k>=1 bytes; a write may return short where POSIX allows it: above PIPE_BUF on pipes, at any size on a byte stream) and the read_string variant. Oracle: ground-truth record of the simulated child: returned bytes per stream equal what the child wrote (prefix on error), absent iff not piped, bytes written to stdin are exactly the input in order, child sees EOF only after the whole input, close(stdin) follows the last accepted byte before the next poll, text variant equals lossy decoding. Non-trivial = a short read/write actually happened, or a stream crossed the 4096-byte chunk, or both streams carried data.",
+    rule: "as C01 plus short-read and short-write plans (each parent read() may be cut to k>=1 bytes; a write may return short where POSIX allows it: above PIPE_BUF on pipes, at any size on a byte stream) and the read_string variant. Oracle: ground-truth record of the simulated child: returned bytes per stream equal what the child wrote (prefix on error), absent iff not piped, bytes written to stdin are exactly the input in order, child sees EOF only after the whole input, close(stdin) follows the last accepted byte before the next poll, text variant equals lossy decoding. Non-trivial = a short read/write actually happened, or a stream crossed the 4096-byte chunk, or both streams carried data. Blocking polls are interrupted by a signal handler (EINTR) in a sixth of the cases; the data returned with the error and by the resumed reads must still add up exactly.",
     assumptions: SIMK_ASSUMPTIONS,
     engines: "simk",
     workers: |_| 16,
@@ -1215,7 +1215,7 @@ pub static C02: PropDef = PropDef {
 pub static C03: PropDef = PropDef {
     id: "C03",
     level: "exploration",
-    rule: "histories of up to 40 reads whose size limit changes between reads (1, 2, 4095, 4096, 4097, 10000, random, larger than the output), children writing to both streams while reads are clipped, short reads on; reading continues until an all-empty Ok. Oracle: every read returns at most n bytes in total; concatenation of the pieces per stream equals the child's record; an all-empty Ok only when the simulator says every captured stream is at EOF; the whole input is delivered. Non-trivial = at least one read was clipped exactly at its limit and (both streams carried data or the limit changed).",
+    rule: "histories of up to 40 reads whose size limit changes between reads (1, 2, 4095, 4096, 4097, 10000, random, larger than the output), children writing to both streams while reads are clipped, short reads on; reading continues until an all-empty Ok. Oracle: every read returns at most n bytes in total; concatenation of the pieces per stream equals the child's record; an all-empty Ok only when the simulator says every captured stream is at EOF; the whole input is delivered. Non-trivial = at least one read was clipped exactly at its limit and (both streams carried data or the limit changed). A quarter of the histories are steady runs of 24-70 equally limited reads against children that keep producing output until their input has arrived: 24 consecutive reads that are each cut short by the limit, start and end with input pending and the stdin pipe writable, and deliver no input byte count as 'the input is no longer being delivered'. A fifth of the histories use the text front end (read_string), for which empty-only-at-EOF and input delivery are judged; polls are interrupted by EINTR in a sixth of the cases.",
     assumptions: SIMK_ASSUMPTIONS,
     engines: "simk",
     workers: |_| 16,
